@@ -252,6 +252,7 @@ GenQuickSuites == {
     Suite("mixed",   2, 1, AllFirst, PalMixed),             \* 660      everything on short bodies
     Suite("stamps",  2, 1, {"other"}, PalPver \cup PalEmpty),\* version stamps, empty-valued keys
     Suite("pver",    1, 3, {"other"}, {Zero, PverOnly, ReqV(1)}),  \* 40  several stamps on one stream
+    Suite("rows",    1, 2, {"bin1", "binN", "nonbin"}, {Data(1), Data(2), Log}),   \* 39  multi-row batches
     SuiteWrite("write", AllWriteReq, AllWriteRes) }         \* 79       the real writers
 GenThoroughSuites == {
     Suite("unary",   1, 3, AllFirst, PalUnary),                          \* 5 * 400
@@ -259,8 +260,8 @@ GenThoroughSuites == {
     Suite("tokens23",2, 3, {"empty"}, {Cur, Call, Both}),                \* 1641
     Suite("request", 1, 1, {"empty", "other"}, PalRequest),              \* 1298
     Suite("request2",2, 2, {"other"}, {Req(1), ReqV(1), XReq, Data(1), Req(0)}),  \* 993: drain + rest
-    Suite("mixed",   2, 2, {"other", "bin1"}, PalMixed \ {Both, Call}),  \* 10805
-    Suite("stamps",  2, 2, {"other"}, PalPver \cup {ECur, ECall}),       \* 5403
+    Suite("mixed",   2, 2, {"bin1"}, PalMixed \ {Both, Call}),           \* 5403
+    Suite("stamps",  2, 2, {"other"}, PalPver \cup {ECur}),              \* 3307
     SuiteWrite("write", AllWriteReq, AllWriteRes) }
 \* random long bodies for -simulate
 \* (minS: seal only bodies of at least that many streams, so that walks get long)
@@ -270,9 +271,9 @@ MCQuickSuites == {
     Suite("mc2",     2, 2, {"other"}, {Zero, Cur, Call, Both, ReqV(1)}),
     SuiteWrite("write", AllWriteReq, AllWriteRes) }
 MCThoroughSuites == {
-    Suite("mc",      2, 2, {"bin1"}, PalMixed),
+    Suite("mc",      2, 2, {"bin1"}, PalMixed \ {Both, Call}),
     Suite("mcU",     1, 3, AllFirst, PalUnary),
-    Suite("mc3",     3, 2, {"other"}, {Cur, Call, Both, ECur}),
+    Suite("mc3",     3, 2, {"other"}, {Cur, Call, Both}),
     Suite("mcreq",   1, 1, {"empty", "other"}, PalRequest),
     Suite("mcstamp", 1, 3, {"other"}, PalPver \cup PalEmpty),
     Suite("mcstamp2",2, 1, {"other"}, PalPver \cup PalEmpty),
@@ -299,7 +300,12 @@ CallJudged(bd)  == ~EmptyTokenStamp(bd) /\ ~LateCall(bd)
 PverJudged(bd) ==
     /\ \A s \in 2..Len(bd) : \A b \in 1..Len(bd[s].batches) : bd[s].batches[b].pver = "none"
     /\ bd # <<>> => \A b \in 1..Len(bd[1].batches) : bd[1].batches[b].pver # "empty"
-UnaryJudged(bd, o) == (bd # <<>> => bd[1].cls # "binN") /\ ~(o.kind = "wres" /\ o.c.env = "other_bin")
+\* a unary result batch has ONE row; which row of a longer batch is "the"
+\* result, and a result column next to other columns, are not C01's business
+MultiRow(bd) == bd # <<>> /\ \E i \in 1..Len(bd[1].batches) : bd[1].batches[i].rows > 1
+UnaryJudged(bd, o) ==
+    /\ bd # <<>> => (bd[1].cls # "binN" /\ ~(ResultBinary(bd[1].cls) /\ MultiRow(bd)))
+    /\ ~(o.kind = "wres" /\ o.c.env = "other_bin")
 \* the zero-row pointer exemptions and the zero-field exemption of the row-count
 \* rule belong to external/shm resolution, not to C01
 RequestJudged(bd) ==
